@@ -36,6 +36,7 @@
 #include <QSslCertificate>
 #include <QSslKey>
 #include <QSslSocket>
+#include <QRegularExpression>
 #include <QTcpServer>
 #include <QTimer>
 #include <QUuid>
@@ -92,10 +93,15 @@ struct Conn {
     bool tlsHandshaking = false;
     qint64 rxBytes = 0, txBytes = 0;
     QString lastId;
+    QString lastPrevid;
+    QString smSessionId;  // id of the stream-management session this connection carries
     // server-side XEP-0198 counters (the reference for C09)
     bool smOn = false;
     bool autoAck = false;  // answer the client's <r/> with the server's real count
     int smInbound = 0;   // stanzas received from the client since <enable/>/<resume/>
+    int resumeH = -1;    // h announced in <resumed/> (the server's inbound counter continues from there)
+    int smLastAck = 0;   // highest h this server has told the client so far (this sm session)
+    int smOutbound = 0;  // stanzas delivered to the client on this stream-management session
     int streamNo = 0;
 
     void resetStream()
@@ -176,7 +182,11 @@ struct Conn {
         }
         o["sm_inbound"] = smInbound;
         if (tag == u"a" && ns == u"urn:xmpp:sm:3") o["h"] = el.attribute(u"h"_s);
-        if (tag == u"resume" && ns == u"urn:xmpp:sm:3") o["h"] = el.attribute(u"h"_s);
+        if (tag == u"resume" && ns == u"urn:xmpp:sm:3") {
+            o["h"] = el.attribute(u"h"_s);
+            o["previd"] = el.attribute(u"previd"_s);
+            lastPrevid = el.attribute(u"previd"_s);
+        }
         J(o);
         queue << o;
         if (!el.attribute(u"id"_s).isEmpty() && tag == u"iq") lastId = el.attribute(u"id"_s);
@@ -347,17 +357,45 @@ struct Case {
         }
     }
 
-    // stanzas the server had counted on the previous connection of the same client (what <resumed h=/> must report)
-    int prevInbound(Conn *cn)
+    // the latest earlier connection that carried the stream-management session the client asks to resume
+    Conn *prevSessionConn(Conn *cn)
     {
         auto &c = *clis[size_t(cn->clientIndex)];
-        return cn->connIndex > 0 ? c.conns[cn->connIndex - 1]->smInbound : 0;
+        for (int i = cn->connIndex - 1; i >= 0; i--) {
+            if (!cn->lastPrevid.isEmpty() && c.conns[i]->smSessionId == cn->lastPrevid) return c.conns[i];
+        }
+        return nullptr;
+    }
+    int prevInbound(Conn *cn)
+    {
+        auto *p = prevSessionConn(cn);
+        return p ? p->smInbound : 0;
     }
 
     QString subst(QString s, Conn *cn)
     {
         if (cn) {
             s.replace(u"$ID"_s, cn->lastId);
+            s.replace(u"$CONN"_s, QString::number(cn->connIndex));
+            s.replace(u"$PREVID"_s, cn->lastPrevid);
+            if (s.contains(u"$HREL:")) {
+                auto &c = *clis[size_t(cn->clientIndex)];
+                const int prevCount = prevInbound(cn);
+                auto *pc = prevSessionConn(cn);
+                const int prevAck = pc ? pc->smLastAck : 0;
+                Q_UNUSED(c);
+                int hAll = prevCount, hSome = qMax(prevAck, prevCount - 1), hNone = prevAck, hStale = qMax(0, prevAck - 1);
+                s.replace(u"$HREL:all"_s, QString::number(hAll));
+                s.replace(u"$HREL:some"_s, QString::number(hSome));
+                s.replace(u"$HREL:none"_s, QString::number(hNone));
+                s.replace(u"$HREL:stale"_s, QString::number(hStale));
+                QRegularExpression re(u"<resumed[^>]* h='(\\d+)'"_s);
+                auto m = re.match(s);
+                if (m.hasMatch()) {
+                    cn->smLastAck = qMax(prevAck, m.captured(1).toInt());
+                    cn->resumeH = m.captured(1).toInt();
+                }
+            }
             s.replace(u"$SMIN_PREV"_s, QString::number(prevInbound(cn)));
             s.replace(u"$SMIN"_s, QString::number(cn->smInbound));
         }
@@ -516,9 +554,27 @@ struct Case {
                 return true;
             }
             const QByteArray data = subst(st["xml"].toString(), cn).toUtf8();
-            J({ { "ev", "srv_tx" }, { "c", c.index }, { "conn", cn->connIndex }, { "xml", QString::fromUtf8(data) }, { "encrypted", cn->encrypted } });
+            const bool smWasOn = cn->smOn;
             if (st["restart"].toBool()) cn->resetStream();
-            if (st["smOn"].toBool()) { cn->autoAck = !st["manualAck"].toBool(); cn->smOn = true; cn->smInbound = st["smResume"].toBool() ? prevInbound(cn) : st["smInbound"].toInt(0); }
+            if (st["smOn"].toBool()) {
+                cn->autoAck = !st["manualAck"].toBool();
+                cn->smOn = true;
+                cn->smInbound = st["smResume"].toBool() ? prevInbound(cn) : st["smInbound"].toInt(0);
+                auto *pc = st["smResume"].toBool() ? prevSessionConn(cn) : nullptr;
+                cn->smOutbound = pc ? pc->smOutbound : 0;
+                cn->smSessionId = st["smResume"].toBool() ? cn->lastPrevid : u"smid-%1"_s.arg(cn->connIndex);
+                if (st["smResume"].toBool() && cn->resumeH >= 0) cn->smInbound = cn->resumeH;
+            }
+            if (smWasOn) {
+                // count the stanzas this step delivers (the reference for the client's <a h/> and <resume h/>)
+                QDomDocument wd;
+                if (wd.setContent("<w xmlns='jabber:client'>" + data + "</w>", true)) {
+                    for (auto e = wd.documentElement().firstChildElement(); !e.isNull(); e = e.nextSiblingElement()) {
+                        if (e.tagName() == u"message" || e.tagName() == u"presence" || e.tagName() == u"iq") cn->smOutbound++;
+                    }
+                }
+            }
+            J({ { "ev", "srv_tx" }, { "c", c.index }, { "conn", cn->connIndex }, { "xml", QString::fromUtf8(data) }, { "encrypted", cn->encrypted }, { "sm_outbound", cn->smOutbound }, { "sm_session", cn->smSessionId } });
             if (st.contains("chunks")) {
                 // deliver in given chunk sizes with a drain in between
                 int pos = 0;
@@ -607,7 +663,8 @@ struct Case {
                 cn->send("<r xmlns='urn:xmpp:sm:3'/>");
             } else {
                 const QByteArray x = "<iq type='get' id='" + fid.toUtf8() + "' from='example.org'><ping xmlns='urn:xmpp:ping'/></iq>";
-                J({ { "ev", "srv_tx" }, { "c", c.index }, { "conn", cn->connIndex }, { "xml", QString::fromUtf8(x) }, { "fence", true } });
+                if (cn->smOn) cn->smOutbound++;
+                J({ { "ev", "srv_tx" }, { "c", c.index }, { "conn", cn->connIndex }, { "xml", QString::fromUtf8(x) }, { "fence", true }, { "sm_outbound", cn->smOutbound }, { "sm_session", cn->smSessionId } });
                 cn->send(x);
             }
             bool got = false;
@@ -650,6 +707,22 @@ struct Case {
                 o["xml"] = msgXml(m);
             }
             J(o);
+            return true;
+        }
+        if (op == u"ackrel") {
+            auto &c = cli(st);
+            auto *cn = c.current();
+            if (!cn || cn->closed || !cn->smOn) return true;
+            const QString rel = st["rel"].toString();
+            int h = cn->smInbound;
+            if (rel == u"minus1") h = qMax(0, cn->smInbound - 1);
+            else if (rel == u"stale") h = qMax(0, cn->smLastAck - 1);
+            else if (rel == u"zero") h = 0;
+            else if (rel == u"beyond") h = cn->smInbound + 5;
+            cn->smLastAck = qMax(cn->smLastAck, h);
+            const QByteArray a = "<a xmlns='urn:xmpp:sm:3' h='" + QByteArray::number(h) + "'/>";
+            J({ { "ev", "srv_tx" }, { "c", c.index }, { "conn", cn->connIndex }, { "xml", QString::fromUtf8(a) }, { "rel", rel }, { "sm_outbound", cn->smOutbound }, { "sm_session", cn->smSessionId } });
+            cn->send(a);
             return true;
         }
         if (op == u"mark") {
